@@ -146,6 +146,18 @@ def evaluate(case, res, mon, sched_name):
                         "[%s] failed=%s outcomes=%s" % (sched_name, failed, res.stage_outcomes))
     bad = {r: (res.states[r], expected[r]) for r in in_run_stages
            if res.states[r] not in (expected[r], SHUTDOWN)}
+    if bad:
+        # A repeating component that was already running when a same-stage producer FAILED may complete on its own
+        # (its producers are over, its last execution succeeds) before the controller gets to stop the stage: "success
+        # gives finished" is then its rule-given state - no rule of the statement shuts down the running consumer of a
+        # *failed* producer (C01 only forbids launching it afterwards). Its own consumers follow from that state.
+        forced = {r: FINISHED for r in in_run_stages
+                  if nodes[r]["repeat"] and res.states[r] == FINISHED and expected[r] == SHUTDOWN
+                  and any(nodes[p]["stage"] == nodes[r]["stage"] and res.states[p] == FAILED for p in preds[r])}
+        if forced:
+            expected = wfcase.rule_states(W, script, force=forced, memo=case.get("memo", ()))
+            bad = {r: (res.states[r], expected[r]) for r in in_run_stages
+                   if res.states[r] not in (expected[r], SHUTDOWN)}
     if bad and _explained_by_observer_finding(W, script, nodes, preds, expected, res.states, in_run_stages,
                                               allow_shutdown=True, memo=case.get("memo", ())):
         raise Violation("observer-of-shutdown-subject-finishes",
@@ -159,7 +171,7 @@ def evaluate(case, res, mon, sched_name):
 
 def run(case, ctx: Ctx, chooser: Chooser):
     W, script = case["W"], case["script"]
-    full = {"W": W, "script": script, "memo": case.get("memo", []), "choices": None}
+    full = {"W": W, "script": script, "memo": case.get("memo", []), "late": case.get("late") or {}, "choices": None}
     orders = []
     kinds = []
     variants = case.get("variants")
